@@ -329,5 +329,5 @@ macro_rules! transparent_len_rule {
 transparent_len_rule!(c13_transparent_outputs_1_2, 1, 2);
 //@ {"p":"C13","tier":"quick","clause":"same, receiving copy longer: Some iff the OTHER copy's outputs are modifiable and the prefix agrees; nothing is moved","bounds":"0 inputs; 2 outputs vs 1 output","assume":"stub: merge_map on two empty maps","stub":true,"replay":"model","covers":2,"t":2400,"unwindset":{"collections::btree.*":2,"drop_glue::<[pczt::transparent::Output]>.0":3,"drop_glue::<[pczt::transparent::Input]>.0":1,"std::vec::Drain<'_, pczt::transparent::Output> as std::iter::Iterator>::fold.0":2,"std::vec::Drain<'_, pczt::transparent::Input> as std::iter::Iterator>::fold.0":1}}
 transparent_len_rule!(c13_transparent_outputs_2_1, 2, 1);
-//@ {"p":"C13","tier":"thorough","clause":"same, empty receiving copy","bounds":"0 inputs; 0 outputs vs 2 outputs","assume":"stub: merge_map on two empty maps","stub":true,"replay":"model","covers":2,"t":2400,"unwindset":{"collections::btree.*":2,"drop_glue::<[pczt::transparent::Output]>.0":3,"drop_glue::<[pczt::transparent::Input]>.0":1,"std::vec::Drain<'_, pczt::transparent::Output> as std::iter::Iterator>::fold.0":2,"std::vec::Drain<'_, pczt::transparent::Input> as std::iter::Iterator>::fold.0":1}}
+//@ {"p":"C13","tier":"thorough","clause":"same, empty receiving copy","bounds":"0 inputs; 0 outputs vs 2 outputs","assume":"stub: merge_map on two empty maps","stub":true,"replay":"model","covers":2,"t":2400,"unwindset":{"collections::btree.*":2,"drop_glue::<[pczt::transparent::Output]>.0":3,"drop_glue::<[pczt::transparent::Input]>.0":1,"std::vec::Drain<'_, pczt::transparent::Output> as std::iter::Iterator>::fold.0":3,"std::vec::Drain<'_, pczt::transparent::Input> as std::iter::Iterator>::fold.0":1}}
 transparent_len_rule!(c13_transparent_outputs_0_2, 0, 2);
